@@ -10,7 +10,7 @@ import "sync"
 // result is a function of its arguments. Native side (replay): the two calls run concurrently under the race
 // detector and each result is compared with its solo result.
 func HarnessC15Concurrent() {
-	c16ErrorPage = "err"
+	c16ErrorPage, c16Debug = "err", false
 	fresh := c16Tree() // serves the second call alone: its result is the second call's solo result
 	tpl := c16Tree()
 	s := string([]byte{vByte("s")})
